@@ -319,11 +319,15 @@ def kNearest (argpart : List Int → Nat → List Nat) (s : ESpace) (pt : Pos) (
 def argsortPart (d : List Int) (_kth : Nat) : List Nat :=
   (List.range d.length).mergeSort (fun i j => decide (d.getD i 0 ≤ d.getD j 0))
 
-/-- `ContinuousSpaceAgent.get_neighbors_in_radius` -/
+/-- `ContinuousSpaceAgent.get_neighbors_in_radius`.  When nothing at all is in the radius
+    (only possible for a negative radius: the agent itself is at distance 0) the mask
+    `np.asarray([])` is a float array and indexing with it raises `IndexError`. -/
 def neighborsInRadius (s : ESpace) (a : Aid) (r : Int) : Except Err (List (Aid × Int)) :=
   match getPos s a with
   | .error e => .error e
-  | .ok p => .ok ((agentsInRadius s p r).filter (fun ad => ad.1 ≠ a))
+  | .ok p =>
+    let res := agentsInRadius s p r
+    if res.isEmpty then .error .index else .ok (res.filter (fun ad => ad.1 ≠ a))
 
 /-- `ContinuousSpaceAgent.get_nearest_neighbors` -/
 def nearestNeighbors (argpart : List Int → Nat → List Nat) (s : ESpace) (a : Aid) (k : Nat) :
